@@ -98,6 +98,36 @@ def check_case(ctx: Ctx, c: Dict[str, Any], files: bool = False, scratch: str = 
         cmp(f"Grid({route}=).direction", g.direction().flatten(), direction, 1e-6, route=route)
         if list(g.size()) != list(n):
             ctx.violation(dict(op="Grid.size", **sig0), f"size {list(g.size())} != {n}", c)
+    # origin/center/spacing/direction handed over as tensors or arrays that the caller goes on using: the constructor and
+    # the setters must neither change them nor keep an alias that a later call changes
+    import numpy as _np
+
+    for form_name, mk in (("tensor32", lambda v: torch.tensor(v, dtype=torch.float32)), ("tensor64", lambda v: torch.tensor(v, dtype=torch.float64)),
+                          ("ndarray32", lambda v: _np.asarray(v, dtype=_np.float32)), ("ndarray64", lambda v: _np.asarray(v, dtype=_np.float64))):
+        o_arg, c_arg, s_arg, d_arg = mk(origin), mk(center), mk(spacing), mk(direction)
+        for rep in (1, 2):
+            g = guarded("Grid(origin=shared)", lambda: Grid(size=n, origin=o_arg, spacing=s_arg, direction=d_arg), form=form_name, rep=rep)
+            if g is not None:
+                cmp("Grid(origin=shared).index_to_world", g.index_to_world(pts), phys, tol32, form=form_name, rep=rep)
+            g = guarded("Grid(center=shared)", lambda: Grid(size=n, center=c_arg, spacing=s_arg, direction=d_arg), form=form_name, rep=rep)
+            if g is not None:
+                cmp("Grid(center=shared).index_to_world", g.index_to_world(pts), phys, tol32, form=form_name, rep=rep)
+            g = guarded("Grid.origin(shared)", lambda: Grid(size=n, spacing=spacing, direction=direction).origin(o_arg), form=form_name, rep=rep)
+            if g is not None:
+                cmp("Grid.origin(shared).index_to_world", g.index_to_world(pts), phys, tol32, form=form_name, rep=rep)
+            g = guarded("Grid.center(shared)", lambda: Grid(size=n, spacing=spacing, direction=direction).center(c_arg), form=form_name, rep=rep)
+            if g is not None:
+                cmp("Grid.center(shared).index_to_world", g.index_to_world(pts), phys, tol32, form=form_name, rep=rep)
+        for nm, arg, exp in (("origin", o_arg, origin), ("center", c_arg, center), ("spacing", s_arg, spacing), ("direction", d_arg, direction)):
+            cmp("caller's " + nm + " argument after construction", torch.as_tensor(arg).flatten().double(), exp, 1e-6 * max(1.0, maxabs(exp)), form=form_name, arg=nm)
+    # image- and batch-level accessors report the geometry of the grid
+    g0_ = Grid(size=n, origin=origin, spacing=spacing, direction=direction)
+    im_ = Image(torch.zeros((1,) + tuple(reversed(n))), g0_)
+    for lvl, obj, pick in (("Image", im_, lambda t: t), ("ImageBatch", im_.batch(), lambda t: t[0])):
+        for nm, exp, tl in (("origin", origin, tol32), ("center", center, tol32), ("spacing", spacing, bound(max(spacing), F32)), ("direction", direction, 1e-6)):
+            got = guarded(f"{lvl}.{nm}", lambda: pick(getattr(obj, nm)()), level=lvl, attr=nm)
+            if got is not None:
+                cmp(f"{lvl}.{nm}()", torch.as_tensor(got).flatten(), exp, tl, level=lvl, attr=nm)
     # flattened / nested direction, from_seq/from_numpy with origin flag
     g = guarded("Grid.from_seq", lambda: Grid.from_seq([float(v) for v in n] + spacing + origin + direction, origin=True))
     if g is not None:
@@ -155,6 +185,10 @@ def check_case(ctx: Ctx, c: Dict[str, Any], files: bool = False, scratch: str = 
             g = guarded("Grid.from_file", lambda: Grid.from_file(path), ext=ext)
             if g is not None:
                 cmp("Grid.from_file.index_to_world", g.index_to_world(pts), phys, tol32, ext=ext)
+            im = guarded("Image.read", lambda: Image.read(path), ext=ext)
+            if im is not None:
+                cmp("Image.read.grid.index_to_world", im.grid().index_to_world(pts), phys, tol32, ext=ext)
+                cmp("Image.read.grid.world_to_index", im.grid().world_to_index(pts, decimals=None), index, tol32, ext=ext)
             os.remove(path)
     ctx.count(key=json.dumps(hdr, sort_keys=True))
 
@@ -173,8 +207,18 @@ def run(ctx: Ctx) -> None:
     try:
         nfiles = 12 if tier == "quick" else 200
         step = max(1, len(cases) // nfiles)
+        # file cases: every step-th case, plus 3-D geometries whose direction does not commute with the LPS/RAS flip
+        # diag(-1,-1,1) (tilted out of the axial plane, permutations involving z) - the NIfTI conversion's own corner
+        def tilted(c):
+            R = F(c["g"]["R"])
+            return len(R) == 3 and any(R[i][2] != 0 or R[2][i] != 0 for i in (0, 1))
+        ntilt = 0
         for i, c in enumerate(cases):
-            check_case(ctx, c, files=(i % step == 0), scratch=scratch)
+            f = i % step == 0
+            if not f and tilted(c) and ntilt < nfiles:
+                f = True
+                ntilt += 1
+            check_case(ctx, c, files=f, scratch=scratch)
     finally:
         shutil.rmtree(scratch, ignore_errors=True)
     ctx.sample({k: cases[len(cases) // 2][k] for k in ("hdr", "P", "phys", "index")})
